@@ -11,7 +11,7 @@
 (*  op "html": outcome, evs (open / close events), texts_ok, escaped_ok,   *)
 (*    token_ok                                                             *)
 (***************************************************************************)
-EXTENDS Tree, Json, IOUtils, TLC
+EXTENDS Tree, Grammar, Json, IOUtils, TLC
 Events == ndJsonDeserialize(IOEnv.TRACE_FILE)
 VARIABLE i
 Init == i \in 1..Len(Events)
@@ -31,6 +31,10 @@ TreeClauses(e) ==
            /\ (ns[j].parent = -1) = (ns[j].plen = ns[1].plen /\ j = 1)
            /\ ns[j].parent >= 0 => (ns[ns[j].parent + 1].plen = ns[j].plen - 1 /\ ns[j].pstr_prefix_ok)>>,
      <<"FlatAndNestedSameNodes", ok => e.nested_same>>,
+     \* a rule that came from a spec carries (and the tree shows: RuleNodeCarriesConditionAndDoc) its doc block as the
+     \* grammar normalises it: description and examples as lists of stripped strings
+     <<"RuleDocIsTheNormalisedDocBlock", \A r \in 1..Len(e.docspecs) : e.docspecs[r].has =>
+           LET n == NormDoc(e.docspecs[r].spec) IN n.st = "ok" => SameU(e.docspecs[r].parsed, n.v)>>,
      \* a node that shows a rule is filed under that rule's path in its plain form (DataPath.simplify: a primitive
      \* wherever the part is what the primitive would be coerced to - whatever the key is: "", 0.0, ...)
      <<"NodePathIsTheSimplifiedRulePath", ok => \A j \in 1..Len(ns) : ns[j].ri > 0 =>
